@@ -25,7 +25,15 @@ pub fn snapshot(root: &Path) -> Snap {
             let p = e.path();
             let rel = p.strip_prefix(root).unwrap().to_string_lossy().to_string();
             let md = std::fs::symlink_metadata(&p).unwrap();
-            if md.is_dir() {
+            if md.file_type().is_symlink() {
+                // a link to a directory behaves, for save, like an empty directory of that name
+                // (exists, remove_dir_all unlinks it); what it points to is listed where it is
+                if p.is_dir() {
+                    s.insert(rel, None);
+                } else {
+                    s.insert(rel, Some(std::fs::read(&p).unwrap_or_default()));
+                }
+            } else if md.is_dir() {
                 s.insert(rel, None);
                 go(root, &p, s);
             } else {
